@@ -43,7 +43,7 @@ fn judge_pair<T: Clone + PartialOrd + Debug>(
     let ma = M::of(a);
     let mb = M::of(b);
     let (ka, kb) = (ikind(a), ikind(b));
-    let mut check = |method: &str, got: bool, want: bool, l: &mut Local| {
+    let check = |method: &str, got: bool, want: bool, l: &mut Local| {
         l.eval();
         if got != want {
             l.violation(
